@@ -4,10 +4,12 @@
 //!   verifier  shape=<file> k=4 np=1 nbc=0 lens=2,1 [vals=<file>]   real keygen_vk + prepare on a symbolic proof, + specification
 //!   prover    shape=<file> k=4 np=2 nbc=1 lens=1,2 [nodes=0]        real keygen_vk/pk + create_proof (symbolic witness) then prepare on that proof
 //!   real      shape=<file> k=4 np=2 nbc=1 lens=1,2                  the same shape over Fq + KZG + Blake2b: does the verifier accept its honest proof?
+//!   exprsig   shapes=<file>                                         keygen only: post-keygen polynomials + GraphEvaluators (exprfam.rs)
 //!   fft / domain / kate / interp ...                                (C12, see c12.rs)
 mod c12;
 mod c14;
 mod c15;
+mod exprfam;
 mod ipa;
 mod c17;
 mod kg;
@@ -260,6 +262,11 @@ fn run_prover(a: &HashMap<String, String>) -> Value {
     let mut tp = CircuitTranscript::<SymHash>::init();
     let pres = create_proof::<SymF, SymCS, _, _>(&params, &pk, &circuits, nbc, &all_refs, DummyRng, &mut tp);
     let mut out = json!({"scenario": "prover", "k": k, "np": np, "nbc": nbc, "lens": lens, "vk": vk_json(&vk)});
+    if arg_usize(a, "ev", 0) == 1 {
+        // expression family: the GraphEvaluators the real keygen_pk built and the polynomials they were built from
+        out["ev"] = exprfam::ev_json(&format!("{pk:?}"));
+        out["polys"] = exprfam::polys_json(vk.cs());
+    }
     if let Err(e) = &pres {
         out["create_proof_error"] = json!(format!("{e:?}"));
     } else {
@@ -333,6 +340,7 @@ fn main() {
         "kzg" => c14::run(&a),
         "batch" => c15::run(&a),
         "keygen" => kg::run(&a),
+        "exprsig" => exprfam::run_sig(&a),
         "ipa" => ipa::run(&a),
         "params" => c17::run(&a),
         "paramsio" => c17::run_io(&a),
